@@ -142,4 +142,530 @@ theorem adjTest_iff {T : Tables} (hT : TablesOK T) {r : Board} (hr : Struct r) (
   · rintro ⟨⟨⟨a, b⟩, c⟩, d⟩; exact ⟨b, a, c, d⟩
   · rintro ⟨b, a, c, d⟩; exact ⟨⟨⟨a, b⟩, c⟩, d⟩
 
+/-! ### what `pseudoLegal` implies, move kind by move kind -/
+
+theorem color_consts (c : Color) :
+    (c = .white ∧ c.other = .black ∧ c.fwd = 1 ∧ c.pawnRank = 1 ∧ c.lastRank = 7 ∧ c.homeRank = 0 ∧ c.other.fwd = -1 ∧ c.other.pawnRank = 6 ∧
+      c.other.homeRank = 7 ∧ c.backrank = 0) ∨
+    (c = .black ∧ c.other = .white ∧ c.fwd = -1 ∧ c.pawnRank = 6 ∧ c.lastRank = 0 ∧ c.homeRank = 7 ∧ c.other.fwd = 1 ∧ c.other.pawnRank = 1 ∧
+      c.other.homeRank = 0 ∧ c.backrank = 7) := by
+  cases c
+  · left; exact ⟨rfl, rfl, rfl, rfl, rfl, rfl, rfl, rfl, rfl, rfl⟩
+  · right; exact ⟨rfl, rfl, rfl, rfl, rfl, rfl, rfl, rfl, rfl, rfl⟩
+
+theorem isEnPassant_pawn {p : Pos} {m : Move} {c' : Color} (hs : p.board m.src = some (.pawn, c')) :
+    isEnPassant p m = true ↔ (m.src.file ≠ m.dst.file ∧ p.board m.dst = none) := by
+  unfold isEnPassant Pos.empty
+  rw [hs]
+  simp only [Bool.true_and, Bool.and_eq_true, bne_iff_ne, Option.isNone_iff_eq_none]
+
+theorem isDoubleStep_pawn {p : Pos} {m : Move} {c' : Color} (hs : p.board m.src = some (.pawn, c')) :
+    isDoubleStep p m = true ↔ (m.dst.rank - m.src.rank).natAbs = 2 := by
+  unfold isDoubleStep
+  rw [hs]
+  simp only [Bool.true_and, beq_iff_eq]
+
+theorem isCastle_king {p : Pos} {m : Move} {c' : Color} (hs : p.board m.src = some (.king, c')) :
+    isCastle p m = true ↔ (m.dst.file - m.src.file).natAbs = 2 := by
+  unfold isCastle
+  rw [hs]
+  simp only [Bool.true_and, beq_iff_eq]
+
+theorem isEnPassant_not_pawn {p : Pos} {m : Move} {pc : Piece} {c' : Color} (hs : p.board m.src = some (pc, c'))
+    (hp : pc ≠ .pawn) : isEnPassant p m = false := by
+  unfold isEnPassant
+  rw [hs]
+  cases pc <;> first | exact absurd rfl hp | rfl
+
+theorem isDoubleStep_not_pawn {p : Pos} {m : Move} {pc : Piece} {c' : Color} (hs : p.board m.src = some (pc, c'))
+    (hp : pc ≠ .pawn) : isDoubleStep p m = false := by
+  unfold isDoubleStep
+  rw [hs]
+  cases pc <;> first | exact absurd rfl hp | rfl
+
+theorem isCastle_not_king {p : Pos} {m : Move} {pc : Piece} {c' : Color} (hs : p.board m.src = some (pc, c'))
+    (hp : pc ≠ .king) : isCastle p m = false := by
+  unfold isCastle
+  rw [hs]
+  cases pc <;> first | exact absurd rfl hp | rfl
+
+/-- the part of `epValid` that `make_move_new` relies on: the marked square holds an enemy pawn on its
+fourth rank and the square it passed over is empty -/
+def Pos.EpSane (p : Pos) : Prop :=
+  ∀ q, p.ep = some q →
+    p.board q = some (.pawn, p.stm.other) ∧ q.rank = p.stm.other.pawnRank + 2 * p.stm.other.fwd ∧
+    ∀ mid, sq? q.file (q.rank - p.stm.other.fwd) = some mid → p.board mid = none
+
+
+theorem pseudoLegal_src {p : Pos} {m : Move} (h : pseudoLegal p m = true) :
+    ∃ pc, p.board m.src = some (pc, p.stm) ∧ p.colorAt m.dst ≠ some p.stm := by
+  unfold pseudoLegal at h
+  cases hs : p.board m.src with
+  | none => rw [hs] at h; cases h
+  | some x =>
+    obtain ⟨pc, c'⟩ := x
+    rw [hs] at h
+    simp only [Bool.and_eq_true, beq_iff_eq, bne_iff_ne] at h
+    obtain ⟨⟨h1, h2⟩, _⟩ := h
+    subst h1
+    exact ⟨pc, rfl, h2⟩
+
+theorem colorAt_eq_some {p : Pos} {s : Sq} {c : Color} : p.colorAt s = some c ↔ ∃ x, p.board s = some (x, c) := by
+  unfold Pos.colorAt
+  cases p.board s with
+  | none => simp
+  | some y => obtain ⟨a, b⟩ := y; simp
+
+theorem empty_iff {p : Pos} {s : Sq} : p.empty s = true ↔ p.board s = none := by
+  unfold Pos.empty; exact Option.isNone_iff_eq_none
+
+/-- the four kinds of pawn move `pseudoLegal` admits -/
+theorem pseudoLegal_pawn {p : Pos} {m : Move} (h : pseudoLegal p m = true)
+    (hs : p.board m.src = some (.pawn, p.stm)) :
+    (m.dst.rank ≠ p.stm.lastRank → m.promo = none) ∧
+    ((m.dst.file - m.src.file = 0 ∧ m.dst.rank - m.src.rank = p.stm.fwd ∧ p.board m.dst = none) ∨
+     (m.dst.file - m.src.file = 0 ∧ m.dst.rank - m.src.rank = 2 * p.stm.fwd ∧ m.src.rank = p.stm.pawnRank ∧
+        p.board m.dst = none) ∨
+     ((m.dst.file - m.src.file).natAbs = 1 ∧ m.dst.rank - m.src.rank = p.stm.fwd ∧
+        ∃ x, p.board m.dst = some (x, p.stm.other)) ∨
+     ((m.dst.file - m.src.file).natAbs = 1 ∧ m.dst.rank - m.src.rank = p.stm.fwd ∧ p.board m.dst = none ∧
+        ∃ q, sq? m.dst.file m.src.rank = some q ∧ p.ep = some q ∧ p.board q = some (.pawn, p.stm.other))) := by
+  unfold pseudoLegal at h
+  rw [hs] at h
+  simp only [Bool.and_eq_true, Bool.or_eq_true, beq_iff_eq, bne_iff_ne, empty_iff, colorAt_eq_some] at h
+  obtain ⟨_, hpromo, hk⟩ := h
+  refine ⟨?_, ?_⟩
+  · intro hr
+    rw [if_neg hr] at hpromo
+    exact Option.isNone_iff_eq_none.mp hpromo
+  · rcases hk with ((⟨⟨a, b⟩, c⟩ | ⟨⟨⟨⟨a, b⟩, c⟩, d⟩, _⟩) | ⟨⟨a, b⟩, c⟩) | ⟨⟨⟨a, b⟩, c⟩, d⟩
+    · exact Or.inl ⟨a, b, c⟩
+    · exact Or.inr (Or.inl ⟨a, b, c, d⟩)
+    · exact Or.inr (Or.inr (Or.inl ⟨a, b, c⟩))
+    · refine Or.inr (Or.inr (Or.inr ⟨a, b, c, ?_⟩))
+      cases hq : sq? m.dst.file m.src.rank with
+      | none => rw [hq] at d; cases d
+      | some q =>
+        rw [hq] at d
+        simp only [Bool.and_eq_true, beq_iff_eq, Pos.has] at d
+        exact ⟨q, rfl, d.1, d.2⟩
+
+
+theorem bool_false_of_not {b : Bool} (h : ¬ b = true) : b = false := by cases b <;> simp_all
+
+/-- a pseudo-legal pawn move: which of the model's branches is taken, and the specification's flags -/
+theorem pawn_cases {T : Tables} (hT : TablesOK T) {p : Pos} {m : Move} (h : pseudoLegal p m = true)
+    (hs : p.board m.src = some (.pawn, p.stm)) (hep : p.EpSane) :
+    (isEnPassant p m = false ∧ isDoubleStep p m = false ∧
+      (m.promo = none → ¬ mmDbl T m ∧ some (m.dst.ubackward p.stm) ≠ p.ep)) ∨
+    (m.promo = none ∧ mmDbl T m ∧ isEnPassant p m = false ∧ isDoubleStep p m = true) ∨
+    (m.promo = none ∧ ¬ mmDbl T m ∧ some (m.dst.ubackward p.stm) = p.ep ∧ isEnPassant p m = true ∧
+      isDoubleStep p m = false ∧ sq? m.dst.file m.src.rank = some (m.dst.ubackward p.stm) ∧
+      p.board (m.dst.ubackward p.stm) = some (.pawn, p.stm.other) ∧ p.board m.dst = none) := by
+  obtain ⟨hpromo, hk⟩ := pseudoLegal_pawn h hs
+  have hSf := file_range m.src; have hSr := rank_range m.src
+  have hDf := file_range m.dst; have hDr := rank_range m.dst
+  have hbf := ubackward_file m.dst p.stm
+  have hbr := ubackward_rank m.dst p.stm
+  have hcc := color_consts p.stm
+  rcases hk with ⟨a, b, c⟩ | ⟨a, b, c, d⟩ | ⟨a, b, x, c⟩ | ⟨a, b, c, q, hq, hpe, hbq⟩
+  · -- single step
+    left
+    refine ⟨bool_false_of_not ?_, bool_false_of_not ?_, ?_⟩
+    · rw [isEnPassant_pawn hs]; intro hh; omega
+    · rw [isDoubleStep_pawn hs]; intro hh; omega
+    · intro _
+      refine ⟨?_, ?_⟩
+      · rw [mmDbl_iff hT]; omega
+      · intro he
+        have hSq : m.dst.ubackward p.stm = m.src := by
+          rw [sq_eq_iff]; omega
+        rw [hSq] at he
+        have := (hep m.src he.symm).1
+        rw [hs] at this
+        injection this with this
+        injection this with _ this
+        exact absurd this.symm (Color.other_ne p.stm)
+  · -- double step
+    right; left
+    refine ⟨?_, ?_, bool_false_of_not ?_, ?_⟩
+    · apply hpromo; omega
+    · rw [mmDbl_iff hT]; omega
+    · rw [isEnPassant_pawn hs]; intro hh; omega
+    · rw [isDoubleStep_pawn hs]; omega
+  · -- capture
+    left
+    refine ⟨bool_false_of_not ?_, bool_false_of_not ?_, ?_⟩
+    · rw [isEnPassant_pawn hs, c]; intro hh; cases hh.2
+    · rw [isDoubleStep_pawn hs]; intro hh; omega
+    · intro _
+      refine ⟨?_, ?_⟩
+      · rw [mmDbl_iff hT]; omega
+      · intro he
+        obtain ⟨_, hr, hmid⟩ := hep _ he.symm
+        have : sq? (m.dst.ubackward p.stm).file ((m.dst.ubackward p.stm).rank - p.stm.other.fwd) = some m.dst := by
+          rw [sq?_eq_some]; omega
+        have := hmid _ this
+        rw [c] at this; cases this
+  · -- en passant
+    right; right
+    rw [sq?_eq_some] at hq
+    have hqe : q = m.dst.ubackward p.stm := by rw [sq_eq_iff]; omega
+    subst hqe
+    obtain ⟨_, hr, _⟩ := hep _ hpe
+    refine ⟨?_, ?_, hpe.symm, ?_, bool_false_of_not ?_, ?_, hbq, c⟩
+    · apply hpromo; omega
+    · rw [mmDbl_iff hT]; omega
+    · rw [isEnPassant_pawn hs]; exact ⟨by omega, c⟩
+    · rw [isDoubleStep_pawn hs]; intro hh; omega
+    · rw [sq?_eq_some]; omega
+
+
+theorem king_attacks_near {p : Pos} {S D : Sq} {c' : Color} (hs : p.board S = some (.king, c'))
+    (h : attacks p S D = true) : (D.file - S.file).natAbs ≤ 1 ∧ (D.rank - S.rank).natAbs ≤ 1 := by
+  unfold attacks at h
+  rw [hs] at h
+  simp only [allDirs, rookDirs, bishopDirs, List.cons_append, List.nil_append, List.any_cons, List.any_nil,
+    onRay, step?, Bool.or_false, Bool.or_eq_true, Bool.and_eq_true, beq_iff_eq, decide_eq_true_eq,
+    Dir.df, Dir.dr, sq?_eq_some] at h
+  omega
+
+theorem pseudoLegal_king {p : Pos} {m : Move} (h : pseudoLegal p m = true)
+    (hs : p.board m.src = some (.king, p.stm)) :
+    attacks p m.src m.dst = true ∨
+    (m.src.rank = p.stm.homeRank ∧ m.src.file = 4 ∧ m.dst.rank = m.src.rank ∧ (m.dst.file - m.src.file).natAbs = 2 ∧
+      ∃ r, sq? (if m.dst.file - m.src.file = 2 then 7 else 0) p.stm.homeRank = some r ∧
+        p.board r = some (.rook, p.stm) ∧ pathClear p m.src r = true) := by
+  unfold pseudoLegal at h
+  rw [hs] at h
+  simp only [Bool.and_eq_true, Bool.or_eq_true, beq_iff_eq, bne_iff_ne] at h
+  obtain ⟨_, _, hk⟩ := h
+  rcases hk with hk | ⟨⟨⟨⟨a, b⟩, c⟩, d⟩, _, e⟩
+  · exact Or.inl hk
+  · refine Or.inr ⟨a, b, by omega, d, ?_⟩
+    cases hr : sq? (if m.dst.file - m.src.file = 2 then 7 else 0) p.stm.homeRank with
+    | none => rw [hr] at e; cases e
+    | some r =>
+      rw [hr] at e
+      cases hmid : sq? (4 + (m.dst.file - m.src.file) / 2) p.stm.homeRank with
+      | none => rw [hmid] at e; cases e
+      | some mid =>
+        rw [hmid] at e
+        simp only [Bool.and_eq_true, Pos.has, beq_iff_eq] at e
+        exact ⟨r, rfl, e.1.1.1.1, e.1.1.1.2⟩
+
+theorem pathClear_empty {p : Pos} {a b x : Sq} (h : pathClear p a b = true) (hx : strictlyBetween a x b = true) :
+    p.board x = none := by
+  unfold pathClear at h
+  have := List.all_eq_true.mp h x (mem_allSq x)
+  rw [hx] at this
+  simpa [empty_iff] using this
+
+theorem backrank_val (c : Color) : (c.backrank.val : Int) = c.homeRank := by cases c <;> rfl
+
+theorem castleRookStart_val (f : Fin 8) : ((Board.castleRookStart f).val : Int) = if (f.val : Int) < 4 then 0 else 7 := by
+  unfold Board.castleRookStart
+  by_cases h : f.val < 4
+  · rw [if_pos h, if_pos (by omega)]; rfl
+  · rw [if_neg h, if_neg (by omega)]; rfl
+
+theorem castleRookEnd_val (f : Fin 8) : ((Board.castleRookEnd f).val : Int) = if (f.val : Int) < 4 then 3 else 5 := by
+  unfold Board.castleRookEnd
+  by_cases h : f.val < 4
+  · rw [if_pos h, if_pos (by omega)]; rfl
+  · rw [if_neg h, if_neg (by omega)]; rfl
+
+/-- a pseudo-legal king move: the model's castling test agrees with `isCastle`, and what a castling move looks like -/
+theorem king_cases {T : Tables} (hT : TablesOK T) {p : Pos} {m : Move} (h : pseudoLegal p m = true)
+    (hs : p.board m.src = some (.king, p.stm)) (hne : m.src ≠ m.dst) :
+    (isCastle p m = false ∧ mmCastles T m .king = false) ∨
+    (isCastle p m = true ∧ mmCastles T m .king = true ∧ p.board m.dst = none ∧
+      homeSq p.stm (if m.dst.file > m.src.file then 7 else 0) =
+        some (mkSq p.stm.backrank (Board.castleRookStart m.dst.getFile)) ∧
+      homeSq p.stm (if m.dst.file > m.src.file then 5 else 3) =
+        some (mkSq p.stm.backrank (Board.castleRookEnd m.dst.getFile)) ∧
+      p.board (mkSq p.stm.backrank (Board.castleRookStart m.dst.getFile)) = some (.rook, p.stm) ∧
+      p.board (mkSq p.stm.backrank (Board.castleRookEnd m.dst.getFile)) = none ∧
+      mkSq p.stm.backrank (Board.castleRookStart m.dst.getFile) ≠ m.src ∧
+      mkSq p.stm.backrank (Board.castleRookStart m.dst.getFile) ≠ m.dst ∧
+      mkSq p.stm.backrank (Board.castleRookEnd m.dst.getFile) ≠ m.src ∧
+      mkSq p.stm.backrank (Board.castleRookEnd m.dst.getFile) ≠ m.dst ∧
+      mkSq p.stm.backrank (Board.castleRookEnd m.dst.getFile) ≠
+        mkSq p.stm.backrank (Board.castleRookStart m.dst.getFile)) := by
+  have hSf := file_range m.src; have hSr := rank_range m.src
+  have hDf := file_range m.dst; have hDr := rank_range m.dst
+  rcases pseudoLegal_king h hs with hk | ⟨a, b, c, d, r, hr, hrook, hpath⟩
+  · left
+    obtain ⟨n1, n2⟩ := king_attacks_near hs hk
+    refine ⟨bool_false_of_not ?_, bool_false_of_not ?_⟩
+    · rw [isCastle_king hs]; omega
+    · rw [mmCastles_iff hT m .king hne]
+      unfold inCastleMoves
+      intro hh
+      apply hne
+      rw [sq_eq_iff]
+      omega
+  · right
+    have f1 := mkSq_file p.stm.backrank (Board.castleRookStart m.dst.getFile)
+    have f2 := mkSq_rank p.stm.backrank (Board.castleRookStart m.dst.getFile)
+    have f3 := mkSq_file p.stm.backrank (Board.castleRookEnd m.dst.getFile)
+    have f4 := mkSq_rank p.stm.backrank (Board.castleRookEnd m.dst.getFile)
+    rw [castleRookStart_val, getFile_val] at f1
+    rw [castleRookEnd_val, getFile_val] at f3
+    rw [backrank_val] at f2 f4
+    rw [sq?_eq_some] at hr
+    have hrs : r = mkSq p.stm.backrank (Board.castleRookStart m.dst.getFile) := by
+      rw [sq_eq_iff]; omega
+    subst hrs
+    have hcc := color_consts p.stm
+    have hD : p.board m.dst = none := by
+      apply pathClear_empty hpath
+      rcases (by omega : m.dst.file = 6 ∨ m.dst.file = 2) with h6 | h2
+      · simp [strictlyBetween, b, a, h6, c, hr.2, f1]
+      · simp [strictlyBetween, b, a, h2, c, hr.2, f1]
+    have hE : p.board (mkSq p.stm.backrank (Board.castleRookEnd m.dst.getFile)) = none := by
+      apply pathClear_empty hpath
+      rcases (by omega : m.dst.file = 6 ∨ m.dst.file = 2) with h6 | h2
+      · simp [strictlyBetween, b, a, h6, hr.2, f1, f3, f4]
+      · simp [strictlyBetween, b, a, h2, hr.2, f1, f3, f4]
+    refine ⟨?_, ?_, hD, ?_, ?_, hrook, hE, ?_, ?_, ?_, ?_, ?_⟩
+    · rw [isCastle_king hs]; exact d
+    · rw [mmCastles_iff hT m .king hne]
+      unfold inCastleMoves
+      exact ⟨rfl, by omega, by omega⟩
+    · unfold homeSq; rw [sq?_eq_some]; omega
+    · unfold homeSq; rw [sq?_eq_some]; omega
+    · intro e; rw [sq_eq_iff] at e; omega
+    · intro e; rw [sq_eq_iff] at e; omega
+    · intro e; rw [sq_eq_iff] at e; omega
+    · intro e; rw [sq_eq_iff] at e; omega
+    · intro e; rw [sq_eq_iff] at e; omega
+
+
+/-- the man that arrives on the destination -/
+def applyMoved (p : Pos) (m : Move) : Option (Piece × Color) :=
+  match p.board m.src, m.promo with
+  | some (.pawn, c'), some q => some (q, c')
+  | x, _ => x
+
+theorem apply_board_plain {p : Pos} {m : Move} (hc : isCastle p m = false) (he : isEnPassant p m = false) (t : Sq) :
+    (apply p m).board t = if t = m.dst then applyMoved p m else if t = m.src then none else p.board t := by
+  unfold apply applyMoved
+  simp only [hc, he, beq_iff_eq]
+  simp
+  rfl
+
+theorem apply_board_ep {p : Pos} {m : Move} (hc : isCastle p m = false) (he : isEnPassant p m = true)
+    {v : Sq} (hv : sq? m.dst.file m.src.rank = some v) (t : Sq) :
+    (apply p m).board t = if t = m.dst then applyMoved p m else if t = m.src then none
+      else if t = v then none else p.board t := by
+  unfold apply applyMoved
+  simp only [hc, he, hv, beq_iff_eq]
+  simp
+  rfl
+
+theorem apply_board_castle {p : Pos} {m : Move} (hc : isCastle p m = true) (he : isEnPassant p m = false)
+    {rs re : Sq} (hrs : homeSq p.stm (if m.dst.file > m.src.file then 7 else 0) = some rs)
+    (hre : homeSq p.stm (if m.dst.file > m.src.file then 5 else 3) = some re) (t : Sq) :
+    (apply p m).board t = if t = m.dst then applyMoved p m else if t = m.src then none
+      else if t = rs then none else if t = re then some (.rook, p.stm) else p.board t := by
+  unfold apply applyMoved
+  simp only [hc, he, hrs, hre, beq_iff_eq]
+  simp
+  rfl
+
+theorem apply_stm (p : Pos) (m : Move) : (apply p m).stm = p.stm.other := rfl
+
+theorem norm_apply_ep_none {p : Pos} {m : Move} (h : isDoubleStep p m = false) : (norm (apply p m)).ep = none := by
+  unfold norm apply
+  simp [h]
+
+theorem norm_apply_ep_double {p : Pos} {m : Move} (h : isDoubleStep p m = true) :
+    ((∃ s : Sq, s.rank = m.dst.rank ∧ (s.file - m.dst.file).natAbs = 1 ∧
+        (apply p m).board s = some (.pawn, p.stm.other)) → (norm (apply p m)).ep = some m.dst) ∧
+    ((¬ ∃ s : Sq, s.rank = m.dst.rank ∧ (s.file - m.dst.file).natAbs = 1 ∧
+        (apply p m).board s = some (.pawn, p.stm.other)) → (norm (apply p m)).ep = none) := by
+  have hep : (apply p m).ep = some m.dst := by unfold apply; simp [h]
+  have hany : (allSq.any fun s => s.rank == m.dst.rank && (s.file - m.dst.file).natAbs == 1 &&
+      (apply p m).has s .pawn (apply p m).stm) = true ↔
+      ∃ s : Sq, s.rank = m.dst.rank ∧ (s.file - m.dst.file).natAbs = 1 ∧
+        (apply p m).board s = some (.pawn, p.stm.other) := by
+    rw [List.any_eq_true]
+    constructor
+    · rintro ⟨s, _, hs⟩
+      simp only [Bool.and_eq_true, beq_iff_eq, Pos.has, apply_stm] at hs
+      exact ⟨s, hs.1.1, hs.1.2, hs.2⟩
+    · rintro ⟨s, h1, h2, h3⟩
+      refine ⟨s, mem_allSq s, ?_⟩
+      simp only [Bool.and_eq_true, beq_iff_eq, Pos.has, apply_stm]
+      exact ⟨⟨h1, h2⟩, h3⟩
+  constructor
+  · intro hex
+    unfold norm
+    simp only [hep]
+    rw [if_pos (hany.mpr hex)]
+  · intro hnex
+    unfold norm
+    simp only [hep]
+    rw [if_neg (fun hh => hnex (hany.mp hh))]
+
+
+/-- castling rights imply king and rook on their home squares (the clause of `Valid`) -/
+def Pos.RightsSane (p : Pos) : Prop := ∀ c,
+  (p.castleK c = true → (homeSq c 4).any (p.has · .king c) = true ∧ (homeSq c 7).any (p.has · .rook c) = true) ∧
+  (p.castleQ c = true → (homeSq c 4).any (p.has · .king c) = true ∧ (homeSq c 0).any (p.has · .rook c) = true)
+
+theorem homeSq_eq (d : Color) (f : Fin 8) : homeSq d (f.val : Int) = some (mkSq d.backrank f) := by
+  unfold homeSq
+  rw [sq?_eq_some, mkSq_file, mkSq_rank, backrank_val]
+  exact ⟨rfl, rfl⟩
+
+theorem homeSq_4 (d : Color) : homeSq d 4 = some (mkSq d.backrank 4) := homeSq_eq d 4
+theorem homeSq_7 (d : Color) : homeSq d 7 = some (mkSq d.backrank 7) := homeSq_eq d 7
+theorem homeSq_0 (d : Color) : homeSq d 0 = some (mkSq d.backrank 0) := homeSq_eq d 0
+
+theorem mkSq_inj_file (r : Fin 8) {f g : Fin 8} (h : mkSq r f = mkSq r g) : f = g := by
+  have := congrArg Fin.val h
+  unfold mkSq at this
+  simp only at this
+  apply Fin.ext; omega
+
+theorem mkSq_ne_file (r : Fin 8) {f g : Fin 8} (h : f ≠ g) : mkSq r f ≠ mkSq r g :=
+  fun e => h (mkSq_inj_file r e)
+
+theorem sqToCR_ks (d : Color) (X : Sq) :
+    (squareToCastleRights d X).ks = (decide (X = mkSq d.backrank 4) || decide (X = mkSq d.backrank 7)) := by
+  have n04 : mkSq d.backrank 0 ≠ mkSq d.backrank 4 := mkSq_ne_file _ (by decide)
+  have n07 : mkSq d.backrank 0 ≠ mkSq d.backrank 7 := mkSq_ne_file _ (by decide)
+  have n40 : mkSq d.backrank 4 ≠ mkSq d.backrank 0 := mkSq_ne_file _ (by decide)
+  have n70 : mkSq d.backrank 7 ≠ mkSq d.backrank 0 := mkSq_ne_file _ (by decide)
+  have n74 : mkSq d.backrank 7 ≠ mkSq d.backrank 4 := mkSq_ne_file _ (by decide)
+  unfold squareToCastleRights
+  by_cases h0 : X = mkSq d.backrank 0
+  · subst h0; simp [n04, n07]
+  · by_cases h4 : X = mkSq d.backrank 4
+    · subst h4; simp [n40]
+    · by_cases h7 : X = mkSq d.backrank 7
+      · subst h7; simp [n70, n74]
+      · simp [h0, h4, h7]
+
+theorem sqToCR_qs (d : Color) (X : Sq) :
+    (squareToCastleRights d X).qs = (decide (X = mkSq d.backrank 4) || decide (X = mkSq d.backrank 0)) := by
+  have n04 : mkSq d.backrank 0 ≠ mkSq d.backrank 4 := mkSq_ne_file _ (by decide)
+  have n40 : mkSq d.backrank 4 ≠ mkSq d.backrank 0 := mkSq_ne_file _ (by decide)
+  have n70 : mkSq d.backrank 7 ≠ mkSq d.backrank 0 := mkSq_ne_file _ (by decide)
+  have n74 : mkSq d.backrank 7 ≠ mkSq d.backrank 4 := mkSq_ne_file _ (by decide)
+  unfold squareToCastleRights
+  by_cases h0 : X = mkSq d.backrank 0
+  · subst h0; simp [n04]
+  · by_cases h4 : X = mkSq d.backrank 4
+    · subst h4; simp [n40]
+    · by_cases h7 : X = mkSq d.backrank 7
+      · subst h7; simp [n70, n74]
+      · simp [h0, h4, h7]
+
+theorem has_color {p : Pos} {x : Sq} {pc : Piece} {d : Color} (h : (some x).any (p.has · pc d) = true) :
+    p.colorAt x = some d := by
+  simp only [Option.any_some, Pos.has, beq_iff_eq] at h
+  rw [colorAt_eq_some]; exact ⟨pc, h⟩
+
+/-- the model's rights update (`square_to_castle_rights` of the source for the mover, of the destination
+for the opponent) agrees with the specification's (`touched` home squares), when rights imply men at home -/
+theorem rights_agree {p : Pos} {m : Move} (hr : p.RightsSane) {pc : Piece}
+    (hs : p.board m.src = some (pc, p.stm)) (hd : p.colorAt m.dst ≠ some p.stm) (d : Color) :
+    ((⟨p.castleK d, p.castleQ d⟩ : CastleRights).remove
+        (squareToCastleRights d (if d = p.stm then m.src else m.dst))).ks = (apply p m).castleK d ∧
+    ((⟨p.castleK d, p.castleQ d⟩ : CastleRights).remove
+        (squareToCastleRights d (if d = p.stm then m.src else m.dst))).qs = (apply p m).castleQ d := by
+  have hsc : p.colorAt m.src = some p.stm := colorAt_eq_some.mpr ⟨pc, hs⟩
+  obtain ⟨hK, hQ⟩ := hr d
+  have key : ∀ x : Sq, p.colorAt x = some d →
+      (decide ((if d = p.stm then m.src else m.dst) = x)) = (decide (x = m.src) || decide (x = m.dst)) := by
+    intro x hx
+    by_cases hds : d = p.stm
+    · rw [if_pos hds]
+      have : x ≠ m.dst := by intro e; rw [e, hds] at hx; exact hd hx
+      by_cases h1 : x = m.src
+      · simp [h1]
+      · simp [h1, this, Ne.symm h1]
+    · rw [if_neg hds]
+      have : x ≠ m.src := by
+        intro e; rw [e, hsc] at hx; injection hx with hx; exact hds hx.symm
+      by_cases h1 : x = m.dst
+      · simp [h1]
+      · simp [h1, this, Ne.symm h1]
+  have hb : ∀ x y : Sq, (x == y) = decide (x = y) := fun x y => by
+    by_cases h : x = y <;> simp [h]
+  unfold CastleRights.remove apply
+  simp only [sqToCR_ks, sqToCR_qs, homeSq_4, homeSq_7, homeSq_0]
+  constructor
+  · cases hk : p.castleK d with
+    | false => simp
+    | true =>
+      obtain ⟨k1, k2⟩ := hK hk
+      rw [homeSq_4] at k1; rw [homeSq_7] at k2
+      have e1 := key _ (has_color k1)
+      have e2 := key _ (has_color k2)
+      simp only [Bool.true_and, Option.some_beq_some]
+      rw [e1, e2]
+      simp [hb]
+  · cases hk : p.castleQ d with
+    | false => simp
+    | true =>
+      obtain ⟨k1, k2⟩ := hQ hk
+      rw [homeSq_4] at k1; rw [homeSq_0] at k2
+      have e1 := key _ (has_color k1)
+      have e2 := key _ (has_color k2)
+      simp only [Bool.true_and, Option.some_beq_some]
+      rw [e1, e2]
+      simp [hb]
+
+
+/-! ### `Valid` positions satisfy the two side conditions -/
+
+theorem epValid_epSane {p : Pos} (h : epValid p = true) : p.EpSane := by
+  intro q hq
+  unfold epValid at h
+  rw [hq] at h
+  simp only [Bool.and_eq_true, beq_iff_eq, Pos.has] at h
+  obtain ⟨⟨h1, h2⟩, h3⟩ := h
+  refine ⟨h1, h2, ?_⟩
+  intro mid hmid
+  rw [hmid] at h3
+  cases ho : sq? q.file p.stm.other.pawnRank with
+  | none => rw [ho] at h3; cases h3
+  | some org =>
+    rw [ho] at h3
+    simp only [Bool.and_eq_true, empty_iff] at h3
+    exact h3.1.1
+
+theorem Valid_epSane {p : Pos} (h : Valid p = true) : p.EpSane := by
+  unfold Valid at h
+  simp only [Bool.and_eq_true] at h
+  exact epValid_epSane h.2
+
+theorem Valid_rightsSane {p : Pos} (h : Valid p = true) : p.RightsSane := by
+  unfold Valid at h
+  simp only [Bool.and_eq_true, List.all_cons, List.all_nil, Bool.or_eq_true, Bool.not_eq_true',
+    Bool.and_true] at h
+  obtain ⟨⟨⟨⟨hw, hb⟩, _⟩, _⟩, _⟩ := h
+  intro c
+  cases c with
+  | white =>
+    refine ⟨fun hk => ?_, fun hq => ?_⟩
+    · rcases hw.1.2 with h1 | h1
+      · rw [hk] at h1; cases h1
+      · exact h1
+    · rcases hw.2 with h1 | h1
+      · rw [hq] at h1; cases h1
+      · exact h1
+  | black =>
+    refine ⟨fun hk => ?_, fun hq => ?_⟩
+    · rcases hb.1.2 with h1 | h1
+      · rw [hk] at h1; cases h1
+      · exact h1
+    · rcases hb.2 with h1 | h1
+      · rw [hq] at h1; cases h1
+      · exact h1
+
 end Chess
